@@ -40,6 +40,37 @@ type Engine struct {
 	allSolvers bool
 	workers  int
 	typeNames map[string]types.Type
+	skipped   []string
+}
+
+// canonicalSSA prints the SSA of a generated function with the package path
+// and the record type name abstracted, so copies emitted for different
+// struct shapes can be compared.
+func (e *Engine) canonicalSSA(fn *ssa.Function) string {
+	var b strings.Builder
+	fn.WriteTo(&b)
+	s := b.String()
+	if p := pkgPathOf(fn); p != "" {
+		s = strings.ReplaceAll(s, p, "GEN")
+		if fn.Pkg != nil {
+			s = strings.ReplaceAll(s, fn.Pkg.Pkg.Name()+".", "GEN.")
+		}
+	}
+	for n := range recTypeNames {
+		s = strings.ReplaceAll(s, "GEN."+n, "GEN.REC")
+		s = strings.ReplaceAll(s, " "+n+")", " REC)")
+		s = strings.ReplaceAll(s, " "+n+" ", " REC ")
+		s = strings.ReplaceAll(s, "*"+n, "*REC")
+	}
+	// drop the Location comment line (file positions differ)
+	var out []string
+	for _, l := range strings.Split(s, "\n") {
+		if strings.HasPrefix(l, "# Location:") {
+			continue
+		}
+		out = append(out, l)
+	}
+	return strings.Join(out, "\n")
 }
 
 const genModule = "gencorpus"
@@ -71,7 +102,7 @@ func (e *Engine) normQual(p *types.Package) string {
 	if e.normPkgPath(p.Path()) == "GEN" {
 		return "GEN"
 	}
-	return p.Name()
+	return pkgAlias(p)
 }
 
 func (e *Engine) funcKey(fn *ssa.Function) string {
@@ -101,7 +132,37 @@ func (e *Engine) ifaceKey(m *types.Func) string {
 }
 
 func (e *Engine) contractFor(fn *ssa.Function) *FuncContract {
-	return e.db.Funcs[e.funcKey(fn)]
+	k := e.funcKey(fn)
+	if fc, ok := e.db.Funcs[k]; ok {
+		return fc
+	}
+	// wildcard contracts (keys with '*'), e.g. GEN::read* for schema-specific generated functions
+	for _, pk := range e.db.patternKeys() {
+		if globMatch(pk, k) {
+			return e.db.Funcs[pk]
+		}
+	}
+	return nil
+}
+
+func globMatch(pat, s string) bool {
+	parts := strings.Split(pat, "*")
+	if !strings.HasPrefix(s, parts[0]) {
+		return false
+	}
+	s = s[len(parts[0]):]
+	for i := 1; i < len(parts); i++ {
+		p := parts[i]
+		if i == len(parts)-1 {
+			return strings.HasSuffix(s, p)
+		}
+		j := strings.Index(s, p)
+		if j < 0 {
+			return false
+		}
+		s = s[j+len(p):]
+	}
+	return s == ""
 }
 
 func (e *Engine) inScope(fn *ssa.Function) bool {
@@ -195,6 +256,7 @@ func (e *Engine) load(patterns []string, dir string) error {
 }
 
 type FuncResult struct {
+	Reached []string
 	Key    string
 	Fn     string
 	Obls   []*Obligation
@@ -210,7 +272,7 @@ func (e *Engine) verifyFunction(fn *ssa.Function, fc *FuncContract) (res *FuncRe
 	t0 := time.Now()
 	res = &FuncResult{Key: fc.Key, Fn: fn.String()}
 	fv := &FV{u: e.u, prog: e.prog, fn: fn, fc: fc, bv: fc.Mode == "bv", declS: map[string]bool{}, maxPaths: 20000,
-		heapsUsed: map[string]string{}, trusted: map[string]bool{}, assumptions: map[string]bool{}, eng: e}
+		heapsUsed: map[string]string{}, trusted: map[string]bool{}, assumptions: map[string]bool{}, eng: e, reached: map[string]bool{}}
 	defer func() {
 		if r := recover(); r != nil {
 			switch x := r.(type) {
@@ -231,6 +293,10 @@ func (e *Engine) verifyFunction(fn *ssa.Function, fc *FuncContract) (res *FuncRe
 		for k := range fv.assumptions {
 			res.Assumptions = append(res.Assumptions, k)
 		}
+		for k := range fv.reached {
+			res.Reached = append(res.Reached, k)
+		}
+		sort.Strings(res.Reached)
 		sort.Strings(res.Assumptions)
 		// attach SMT text
 		pre := e.u.prelude(nil, e.db, nil)
@@ -284,11 +350,32 @@ func (e *Engine) verifyFunction(fn *ssa.Function, fc *FuncContract) (res *FuncRe
 			n = fmt.Sprintf("arg%d", i)
 		}
 		bindParam(p, n)
+		if fc.Refines == "functype" {
+			fr.params[fmt.Sprintf("arg%d", i)] = fr.params[n]
+			if i == 0 {
+				self := fv.funcVal(fn)
+				if len(fn.FreeVars) > 0 {
+					c := fv.fresh("selfclo", "Int")
+					st.assume(fmt.Sprintf("(= (fn_of %s) %s)", c, self.T))
+					self.T = c
+				}
+				fr.params["self"] = self
+			}
+		}
+		if fc.Refines == "iface" {
+			if i == 0 {
+				// the interface value wrapping the receiver
+				pv := fr.params[n]
+				fr.params["self"] = Val{T: fmt.Sprintf("(mk-iface %d %s)", e.u.typeID(p.Type()), pv.T), S: "Iface", Typ: fc.IfaceType}
+			} else if i-1 < len(fc.ParamNames) {
+				fr.params[fc.ParamNames[i-1]] = fr.params[n]
+			}
+		}
 	}
 	env := fv.envFor(st)
 	env.old = st
 	for _, r := range fc.Requires {
-		st.assume(fv.evalBool(r.E, env))
+		fv.assumeSpec(st, r.E, env)
 	}
 	// cover: preconditions satisfiable
 	o := &Obligation{Func: fc.Key, Name: "cover:requires", Kind: "cover", Hyps: append([]string(nil), st.pc...), Goal: "false", Expect: "sat", Src: "preconditions are satisfiable"}
@@ -326,7 +413,7 @@ func (e *Engine) verifyFunction(fn *ssa.Function, fc *FuncContract) (res *FuncRe
 			if en.Free {
 				continue
 			}
-			g := fv.evalBool(en.E, env)
+			g := fv.evalGoal(st, en.E, env, 0)
 			fv.addObl(st, "ensures", fmt.Sprintf("%s@path%d", en.Name, fv.paths), g, en.Src, en.Tags)
 		}
 	}
@@ -352,11 +439,12 @@ func buildSMT(prelude, decls string, o *Obligation) string {
 (declare-fun bit_or (Int Int) Int)
 (declare-fun bit_xor (Int Int) Int)
 (declare-fun bit_andnot (Int Int) Int)
+(declare-fun fn_of (Int) Int)
 `)
 	b.WriteString(decls)
 	b.WriteString("\n")
 	for _, h := range o.Hyps {
-		b.WriteString("(assert " + h + ")\n")
+		b.WriteString("(assert " + strings.TrimPrefix(h, contentTag) + ")\n")
 	}
 	b.WriteString("(assert (not " + o.Goal + "))\n(check-sat)\n")
 	return b.String()
@@ -367,6 +455,11 @@ func (e *Engine) discharge(obls []*Obligation) {
 	parallelDo(len(obls), e.workers, func(i int) {
 		o := obls[i]
 		name := fmt.Sprintf("%04d_%s_%s", i, shortKey(o.Func), o.Name)
+		if o.Expect == "sat" {
+			// cover check: only a refutation (unsat) matters; one solver, short limit
+			o.Res, o.All = raceSolvers(e.tmp, name, o.SMT, 2, false, []string{"z3-new"})
+			return
+		}
 		o.Res, o.All = raceSolvers(e.tmp, name, o.SMT, e.timeout, e.allSolvers, nil)
 		if o.Expect == "unsat" && o.Res.Status != "unsat" && o.Res.Status != "sat" {
 			// model search: retry with model-based quantifier instantiation
@@ -425,6 +518,133 @@ func (e *Engine) loadContracts(verifDir string) error {
 		}
 		if err := e.db.loadContractFile(f, files[f]); err != nil {
 			return err
+		}
+	}
+	return nil
+}
+
+// ifaceInScope: the interface the method belongs to is declared in a package under verification.
+func (e *Engine) ifaceInScope(m *types.Func) bool {
+	sig := m.Type().(*types.Signature)
+	if n, ok := sig.Recv().Type().(*types.Named); ok && n.Obj().Pkg() != nil {
+		return e.scopePkgs[n.Obj().Pkg().Path()]
+	}
+	return false
+}
+
+type workItem struct {
+	fn *ssa.Function
+	fc *FuncContract
+}
+
+// refinementsOf returns the functions that must satisfy a functype or
+// in-scope interface contract, each with a synthesized contract.
+func (e *Engine) refinementsOf(kind, key string) []workItem {
+	var out []workItem
+	switch kind {
+	case "functype":
+		base := e.db.FnTypes[key]
+		if base == nil {
+			return nil
+		}
+		var keys []string
+		for k := range e.funcs {
+			keys = append(keys, k)
+		}
+		sort.Strings(keys)
+		for _, k := range keys {
+			for _, fn := range e.funcs[k] {
+				if fn.Blocks == nil || !e.inScope(fn) || fn.Signature.Recv() != nil {
+					continue
+				}
+				if sigKey(fn.Signature, e.normQual) != key {
+					continue
+				}
+				c := *base
+				c.Key = k
+				c.Trusted = false
+				c.Refines = "functype"
+				c.RefOf = key
+				c.Loops = map[int]*LoopContract{}
+				if own := e.db.Funcs[k]; own != nil {
+					c.Loops = own.Loops
+				}
+				out = append(out, workItem{fn, &c})
+			}
+		}
+	case "iface":
+		base := e.db.Ifaces[key]
+		if base == nil {
+			return nil
+		}
+		// find the interface type and method name
+		i := strings.LastIndex(key, ".")
+		mname := key[i+1:]
+		var keys []string
+		for k := range e.funcs {
+			keys = append(keys, k)
+		}
+		sort.Strings(keys)
+		for _, k := range keys {
+			for _, fn := range e.funcs[k] {
+				if fn.Blocks == nil || !e.inScope(fn) || fn.Signature.Recv() == nil || fn.Name() != mname || fn.Synthetic != "" {
+					continue
+				}
+				rt := fn.Signature.Recv().Type()
+				// which in-scope interface named by key does rt implement?
+				it := e.ifaceTypeByKey(key, fn)
+				if it == nil || !types.Implements(rt, it.Underlying().(*types.Interface)) {
+					continue
+				}
+				if _, isPtr := rt.Underlying().(*types.Pointer); !isPtr {
+					continue
+				}
+				c := *base
+				c.Key = k
+				c.Trusted = false
+				c.Refines = "iface"
+				c.RefOf = key
+				c.IfaceType = it
+				c.Loops = map[int]*LoopContract{}
+				if own := e.db.Funcs[k]; own != nil {
+					c.Loops = own.Loops
+					// the function's own preconditions restrict when the method may be invoked at all;
+					// they are NOT available to an interface caller, so they are not assumed here.
+				}
+				// method parameter names as in the interface declaration
+				if obj, _, _ := types.LookupFieldOrMethod(it, true, nil, mname); obj != nil {
+					sig := obj.Type().(*types.Signature)
+					for j := 0; j < sig.Params().Len(); j++ {
+						n := sig.Params().At(j).Name()
+						if n == "" || n == "_" {
+							n = fmt.Sprintf("arg%d", j)
+						}
+						c.ParamNames = append(c.ParamNames, n)
+					}
+				}
+				out = append(out, workItem{fn, &c})
+			}
+		}
+	}
+	return out
+}
+
+// ifaceTypeByKey finds the named interface type for an iface contract key,
+// in the package of fn for generated code.
+func (e *Engine) ifaceTypeByKey(key string, fn *ssa.Function) types.Type {
+	i := strings.Index(key, "::")
+	j := strings.LastIndex(key, ".")
+	pkgPath, tname := key[:i], key[i+2:j]
+	for _, p := range e.prog.AllPackages() {
+		pp := e.normPkgPath(p.Pkg.Path())
+		if pp != pkgPath {
+			continue
+		}
+		if pp == "GEN" && (fn.Pkg == nil || fn.Pkg.Pkg != p.Pkg) {
+			continue
+		}
+		if t, ok := p.Members[tname].(*ssa.Type); ok {
+			return t.Type()
 		}
 	}
 	return nil
